@@ -8,6 +8,7 @@ import (
 	"math/big"
 	"net/http"
 	"strings"
+	"sync"
 	"time"
 )
 
@@ -234,6 +235,41 @@ func runC07(em *vEmitter, r *vRng) {
 		if len(e.nonce) != 12 {
 			nviol = "nonce of unexpected size"
 		}
+	}
+
+	// the same from many goroutines at once on one factory (every handler goroutine of a listener shares it)
+	{
+		var mu sync.Mutex
+		var wg sync.WaitGroup
+		per := 600
+		if thorough {
+			per = 6000
+		}
+		for g := 0; g < 16; g++ {
+			wg.Add(1)
+			go func(g int) {
+				defer wg.Done()
+				local := make([]string, 0, per)
+				for i := 0; i < per; i++ {
+					st, _, sess := C.f.Generate(fmt.Sprintf("u%d", g), g%2 == 0)
+					if st != http.StatusOK {
+						continue
+					}
+					local = append(local, strings.SplitN(sess, ":", 2)[0])
+				}
+				mu.Lock()
+				defer mu.Unlock()
+				for _, n := range local {
+					raw, _ := base64.URLEncoding.DecodeString(n)
+					if seen[string(raw)] && nviol == "" {
+						nviol = "two tokens issued concurrently by one instance share the nonce " + vHex(raw)
+					}
+					seen[string(raw)] = true
+				}
+			}(g)
+		}
+		wg.Wait()
+		nIssue += 16 * per
 	}
 
 	// present everything to factory A, in batches
